@@ -60,7 +60,7 @@ theorem parse_render {V} (fmt : V → String) (parse : String → Option V) (hc 
     have : (uniqNames t.names).length ≥ 1 := by
       cases hnm : t.names with
       | nil => exact absurd hnm hn
-      | cons a r => simp [uniqNames, uniqFrom]
+      | cons a r => rw [uniqNames_length]; simp
     simp only [List.length_cons]; omega
   simp only [hlen, ↓reduceIte, Option.map_some, List.tail_cons, filterMap_rows fmt parse hc]
 
